@@ -125,6 +125,24 @@ fixed("C17", "d84e962", "SparseKDE.score_samples raised IndexError when a query 
 fixed("C17", "49262aa", "effdim: 0*log(0)=NaN bandwidths for clouds constant in one coordinate / collinear; spurious 'not positive definite' for an eigenvalue of -2e-15 beside O(1) ones")
 fixed("C17", "e290dd5", "oas shrinkage coefficient outside [0,1] (2.4-9.5 at local populations ~1) gave bandwidths with negative eigenvalues (-1.6 ... -6.3)")
 
+# ------------------------------------------------------------------ C09
+known(
+    "C09",
+    "K3",
+    "VoronoiFPS with the default switching point calibrates it from wall-clock timings inside fit and writes the result into the "
+    "constructor parameter full_fraction: (i) fit changes a hyper-parameter, (ii) a later cold fit is rejected when the calibration "
+    "returned 0, (iii) the scratch attribute new_dist_ left by repeated / refitted estimators differs with the timing-dependent branch taken",
+    "VoronoiFPS._init_greedy_search assigns self.full_fraction; classifier: estimator is VoronoiFPS constructed with full_fraction=None and "
+    "the only changed hyper-parameter is full_fraction / the only differing fitted attribute is new_dist_ / the refit error is the switching-point ValueError",
+    "tests/test_voronoi_fps.py::test_switching_point reads the calibrated value back from the full_fraction parameter",
+    {"scenario": "sample.VoronoiFPS(default switching point)", "layout": "C", "readonly": False, "dtype": "float64", "seed": 12345},
+    "VoronoiFPS(n_to_select=3).fit(X) on any 14x7 float matrix: get_params/vars before and after fit differ in full_fraction (None -> calibrated value)",
+)
+fixed("C09", "40f5c07", "QuickShift(cuts, scale=2) multiplied the caller's cut-off array by 4 in place (write-protected array rejected; faulted also for scale=1)")
+fixed("C09", "8b14f82", "SparseKDE(descriptors, weights) divided the caller's weights in place (also rejected read-only and integer weights)")
+fixed("C09", "6f2ff40", "sample FPS / CUR / VoronoiFPS: fit(X, y) then fit(X) raised TypeError through a stale y_selected_")
+fixed("C09", "fdb06df", "KernelNormalizer().fit(K_14).fit(K_9) raised a feature-count ValueError (reset=False in fit)")
+
 if __name__ == "__main__":
     out = {
         "comment": "Genuine defects of scikit-matter found by the monitors. status=known: recorded, not repaired, keyed by "
